@@ -76,6 +76,9 @@ theorem safe_request (env : Env) (n : Nat) : SafeDec P (request env n) := by
     · exact hP.alloc
     · trivial
 
+theorem safe_requestAt (env : Env) (site : Site) (n : Nat) : SafeDec P (requestAt env site n) :=
+  safe_request (env.forSite site) n
+
 theorem safe_optDec {α : Type} (c : Bool) {d : Dec α} (dflt : α) (hd : SafeDec P d) : SafeDec P (optDec c d dflt) := by
   unfold optDec
   exact safe_ite hd (safe_pure _)
@@ -253,7 +256,7 @@ theorem safe_splitM (env : Env) (vals : List Val) (n : Bool) :
       simp only [hvl, if_true, hstep]
       have hne : ¬ prodL (d' :: ds') = 0 := by omega
       simp only [hne, if_false]
-      refine safe_bind' s (safe_request env _ s) ?_
+      refine safe_bind' s (safe_requestAt env _ _ s) ?_
       intro _ s1 _
       have hloop := safe_splitLoop (f := fun a b => splitM env vals n (d' :: ds') a b) (p := prodL (d' :: ds'))
         (len := vals.length) hp (fun a ha => ih a (by simp) hpos' ha)
@@ -306,7 +309,7 @@ theorem safe_decExtObj (env : Env) {rec : Ty → Dec Val} (hr : ∀ t, SafeDec P
 theorem safe_decSlice (env : Env) {d : Dec Val} (hd : SafeDec P d) : SafeDec P (decSlice env d) := by
   unfold decSlice
   refine safe_bind (safe_readUInt 4) fun n => safe_ite (safe_pure _) (safe_ite safe_err ?_)
-  exact safe_bind (safe_request env n) fun _ => safe_bind (safe_decElems hd n) fun _ => safe_pure _
+  exact safe_bind (safe_requestAt env _ n) fun _ => safe_bind (safe_decElems hd n) fun _ => safe_pure _
 
 theorem safe_decByteSlice : SafeDec P decByteSlice := by
   unfold decByteSlice
@@ -315,14 +318,14 @@ theorem safe_decByteSlice : SafeDec P decByteSlice := by
 
 theorem safe_decVarElems (env : Env) {d : Dec Val} (hd : SafeDec P d) (n : Int) : SafeDec P (decVarElems env d n) := by
   unfold decVarElems
-  exact safe_ite (safe_pure _) (safe_bind (safe_request env _) fun _ => safe_decElems hd _)
+  exact safe_ite (safe_pure _) (safe_bind (safe_requestAt env _ _) fun _ => safe_decElems hd _)
 
 theorem decVarElems_length (env : Env) {d : Dec Val} (n : Int) (hn : 0 ≤ n) (s s' : St) (vs : List Val)
     (h : decVarElems env d n s = .ok vs s') : vs.length = n.toNat := by
   unfold decVarElems at h
   have : ¬ n = -1 := by omega
   simp only [this, if_false, Dec.bind_apply] at h
-  cases h1 : request env n.toNat s with
+  cases h1 : requestAt env .varArray n.toNat s with
   | fail e => simp [h1] at h
   | ok u s1 =>
     simp only [h1] at h
@@ -337,7 +340,7 @@ theorem safe_checkDimCount (dl : Nat) : SafeDec P (checkDimCount dl) := by
 
 theorem safe_decDimList (env : Env) (dl : Nat) : SafeDec P (decDimList env dl) :=
   safe_bind (safe_checkDimCount dl) fun _ =>
-    safe_bind (safe_request env dl) fun _ => safe_bind (safe_decDims dl) fun _ => safe_pure _
+    safe_bind (safe_requestAt env _ dl) fun _ => safe_bind (safe_decDims dl) fun _ => safe_pure _
 
 theorem decDimList_spec (env : Env) (dl : Nat) (s s' : St) (r : Option (List Nat)) (h : decDimList env dl s = .ok r s') :
     ∃ ds, r = some ds ∧ ds.length = dl ∧ ∀ d ∈ ds, 1 ≤ d := by
@@ -347,7 +350,7 @@ theorem decDimList_spec (env : Env) (dl : Nat) (s s' : St) (r : Option (List Nat
   | fail e => simp [h0] at h
   | ok u0 s0 =>
     simp only [h0] at h
-    cases h1 : request env dl s0 with
+    cases h1 : requestAt env .dims dl s0 with
     | fail e => simp [h1] at h
     | ok u s1 =>
       simp only [h1] at h
